@@ -17,6 +17,7 @@ Require Import List ZArith Bool String Ascii Lia.
 Import ListNotations.
 From Burrow Require Import Http.
 From Burrow Require AMap AMapProofs Eval Storage.
+From Burrow Require F32 EvalProofs EvalGroupProofs EvalCompleteProofs RingProofs StorageProofs StorageWindows JsonProofs.
 Open Scope Z_scope.
 
 (* ------------------------------------------------------------------------------------------------ *)
@@ -585,6 +586,292 @@ Section StorageLink.
     intros c g. apply fetch_consumer_no_crash.
   Qed.
 End StorageLink.
+
+(* ------------------------------------------------------------------------------------------------ *)
+(* 7b. the evaluator half of [backend_typed], from Eval.v over the replies of reachable storage states  *)
+(* ------------------------------------------------------------------------------------------------ *)
+
+Definition f32_fin (c : F32.f32) : bool := Flocq.IEEE754.Binary.is_finite 24 128 c.
+
+(* encoding/json can encode a *protocol.ConsumerGroupStatus iff its float32 fields are finite: Complete of the group,
+   of every listed partition and of Maxlag *)
+Definition status_encodable (g : Eval.gstatus) : bool :=
+  f32_fin (Eval.gs_complete g)
+  && forallb (fun p => f32_fin (Eval.ps_complete p)) (Eval.gs_partitions g)
+  && match Eval.gs_maxlag g with Some m => f32_fin (Eval.ps_complete m) | None => true end.
+
+(* The evaluator (evaluator/caching.go getConsumerStatus / evaluateConsumerStatus) over a storage state: it asks
+   storage for the group (StorageFetchConsumer); nil => the NOTFOUND status (Complete 1.0, no partitions); otherwise
+   Eval.eval_group over the reply, filtered for the problems-only view.  A panic of the storage worker or of the
+   evaluation is "no reply" (None).  A status served from the evaluator's cache is the value of this function at an
+   earlier time on an earlier -- equally reachable -- state (C05), so the statement below covers it. *)
+Definition evaluator_model (cf : Storage.config) (now : Z) (st : Storage.state) (minimum : F32.f32) (allowed enow : Z)
+           (c g : Z) (showall : bool) : option gstatus :=
+  match Storage.fetch_consumer cf now st c g with
+  | Storage.Crashed => None
+  | Storage.Done _ (Storage.RConsumer l) =>
+      match Eval.eval_group l minimum allowed enow with
+      | Eval.Crash => None
+      | Eval.Ok gs =>
+          let v := if showall then gs else Eval.filter_view gs in
+          Some (mk_gstatus (Eval.status_num (Eval.gs_status v)) (status_encodable v))
+      end
+  | Storage.Done _ _ => Some (mk_gstatus 0 true)
+  end.
+
+(* "at most 2^24 partitions per group" *)
+Definition group_size (grp : Storage.cgroup) : nat := List.length (flat_map snd (Storage.g_topics grp)).
+Definition groups_bounded (st : Storage.state) : Prop :=
+  forall c cl g grp, AMap.get st c = Some cl -> AMap.get (Storage.cl_consumer cl) g = Some grp ->
+                     Z.of_nat (group_size grp) <= 2 ^ 24.
+
+Lemma add_lags_length : forall tl cps i l, Storage.add_lags tl i cps = Some l -> List.length l = List.length cps.
+Proof.
+  intros tl cps. induction cps as [|cp rest IH]; intros i l H; cbn [Storage.add_lags] in H.
+  - inversion H; reflexivity.
+  - destruct (nth_error tl i) as [r|].
+    + destruct (Storage.add_lag r cp); [|discriminate].
+      destruct (Storage.add_lags tl (S i) rest) as [rest'|] eqn:E; [|discriminate].
+      inversion H; subst. cbn [List.length]. f_equal. eapply IH; eauto.
+    + destruct (Storage.add_lags tl (S i) rest) as [rest'|] eqn:E; [|discriminate].
+      inversion H; subst. cbn [List.length]. f_equal. eapply IH; eauto.
+Qed.
+
+Lemma fetch_topics_lags_size :
+  forall broker tops l, Storage.fetch_topics_lags broker tops = Some l ->
+    List.length (flat_map snd l) = List.length (flat_map snd tops).
+Proof.
+  intros broker tops. induction tops as [|[t cps] rest IH]; intros l H; cbn [Storage.fetch_topics_lags] in H.
+  - inversion H; reflexivity.
+  - destruct (Storage.fetch_topics_lags broker rest) as [rest'|] eqn:E.
+    + destruct (AMap.get broker t) as [tl|].
+      * destruct (Storage.add_lags tl 0 cps) as [cps'|] eqn:El; [|discriminate].
+        inversion H; subst. cbn [flat_map snd]. rewrite !app_length, (IH _ eq_refl), (add_lags_length _ _ _ _ El). reflexivity.
+      * inversion H; subst. cbn [flat_map snd]. rewrite !app_length, (IH _ eq_refl). reflexivity.
+    + destruct (AMap.get broker t) as [tl|]; [destruct (Storage.add_lags tl 0 cps)|]; discriminate.
+Qed.
+
+Lemma flat_map_snd_map_length :
+  forall {A B C} (f : B -> C) (l : list (A * list B)),
+    List.length (flat_map snd (map (fun tp => (fst tp, map f (snd tp))) l)) = List.length (flat_map snd l).
+Proof.
+  intros A B C f l. induction l as [|[a bs] l IH]; [reflexivity|].
+  cbn [map flat_map fst snd]. rewrite !app_length, map_length, IH. reflexivity.
+Qed.
+
+(* the reply of FetchConsumer lists exactly the partitions the group holds *)
+Lemma fetch_consumer_reply_size :
+  forall cf now st c g st' l,
+    groups_bounded st ->
+    Storage.fetch_consumer cf now st c g = Storage.Done st' (Storage.RConsumer l) ->
+    Z.of_nat (List.length (EvalCompleteProofs.all_parts l)) <= 2 ^ 24.
+Proof.
+  intros cf now st c g st' l Hb H. unfold Storage.fetch_consumer in H.
+  destruct (AMap.get st c) as [cl|] eqn:Ec; [|discriminate].
+  destruct (AMap.get (Storage.cl_consumer cl) g) as [grp|] eqn:Eg; [|discriminate].
+  destruct (Storage.expired cf now (Storage.g_last grp)); [discriminate|].
+  match type of H with context [Storage.fetch_topics_lags ?b ?t] => destruct (Storage.fetch_topics_lags b t) as [l'|] eqn:El end;
+    [|discriminate].
+  inversion H; subst l'. unfold EvalCompleteProofs.all_parts.
+  rewrite (fetch_topics_lags_size _ _ _ El), flat_map_snd_map_length.
+  exact (Hb c cl g grp Ec Eg).
+Qed.
+
+(* every window of the reply has the storage shape and at most cf_intervals slots (StorageWindows, C02) *)
+Lemma reply_parts_shaped :
+  forall cf cls h st reps now c g st' l,
+    (1 <= Storage.cf_intervals cf)%nat -> StorageProofs.wf_hist h ->
+    Storage.run cf (Storage.init_state cls) h = Some (st, reps) ->
+    Storage.fetch_consumer cf now st c g = Storage.Done st' (Storage.RConsumer l) ->
+    Forall (fun cp => (exists b cs, Eval.cp_offsets cp = repeat None b ++ map Some cs) /\
+                      (List.length (Eval.cp_offsets cp) <= Storage.cf_intervals cf)%nat)
+           (EvalCompleteProofs.all_parts l).
+Proof.
+  intros cf cls h st reps now c g st' l HN Hwf Hrun Hf.
+  apply Forall_forall. intros cp Hin. unfold EvalCompleteProofs.all_parts in Hin.
+  apply in_flat_map in Hin as [[t cps] [Hl Hcp]]. cbn [snd] in Hcp.
+  apply In_nth_error in Hcp as [i Hi].
+  destruct (StorageWindows.storage_reply_windows cf cls h st reps now c g st' l t cps i cp HN Hwf Hrun Hf Hl Hi)
+    as [He|[_ (b & cs & Hw & Hlen & _)]].
+  - split; [exists 0%nat, []; rewrite He; reflexivity|rewrite He; cbn; lia].
+  - unfold RingProofs.window in Hw. split; [exists b, cs; exact Hw|].
+    rewrite Hw, app_length, repeat_length, map_length. lia.
+Qed.
+
+Lemma eval_parts_no_crash :
+  forall ps t idx minimum allowed now,
+    Forall (fun cp => exists b cs, Eval.cp_offsets cp = repeat None b ++ map Some cs) ps ->
+    exists l, Eval.eval_parts t idx ps minimum allowed now = Eval.Ok l.
+Proof.
+  induction ps as [|p r IH]; intros t idx minimum allowed now H; cbn [Eval.eval_parts]; [eexists; reflexivity|].
+  inversion H as [|? ? (b & cs & Hsh) Hr]; subst.
+  destruct (EvalProofs.eval_partition_no_crash b cs p minimum allowed now Hsh) as [[[[s st] en] cpl] Hp]. rewrite Hp.
+  destruct (IH t (idx + 1) minimum allowed now Hr) as [l Hl]. rewrite Hl. eexists; reflexivity.
+Qed.
+
+Lemma eval_topics_no_crash :
+  forall ts minimum allowed now,
+    Forall (fun cp => exists b cs, Eval.cp_offsets cp = repeat None b ++ map Some cs) (EvalCompleteProofs.all_parts ts) ->
+    exists l, Eval.eval_topics ts minimum allowed now = Eval.Ok l.
+Proof.
+  induction ts as [|[t ps] r IH]; intros minimum allowed now H; cbn [Eval.eval_topics]; [eexists; reflexivity|].
+  unfold EvalCompleteProofs.all_parts in H. cbn [flat_map snd] in H. apply Forall_app in H as [Hp Hr].
+  destruct (eval_parts_no_crash ps t 0 minimum allowed now Hp) as [l Hl]. rewrite Hl.
+  destruct (IH minimum allowed now Hr) as [l' Hl']. rewrite Hl'. eexists; reflexivity.
+Qed.
+
+Lemma eval_group_no_crash :
+  forall ts minimum allowed now,
+    Forall (fun cp => exists b cs, Eval.cp_offsets cp = repeat None b ++ map Some cs) (EvalCompleteProofs.all_parts ts) ->
+    exists g, Eval.eval_group ts minimum allowed now = Eval.Ok g.
+Proof.
+  intros ts minimum allowed now H. unfold Eval.eval_group.
+  destruct (eval_topics_no_crash ts minimum allowed now H) as [parts Hp]. rewrite Hp.
+  destruct (fold_left Eval.fold_part parts (Eval.StOK, None, 0, [])) as [[[st mx] nc] lst]. eexists; reflexivity.
+Qed.
+
+Lemma forallb_filter_sub : forall {A} (f g : A -> bool) l, forallb f l = true -> forallb f (filter g l) = true.
+Proof.
+  intros A f g l. induction l as [|a l IH]; cbn [filter forallb]; [reflexivity|].
+  intro H. apply andb_true_iff in H as [Ha Hl]. destruct (g a); cbn [forallb]; [rewrite Ha|]; auto.
+Qed.
+
+(* The evaluator's reply, for every reachable storage state: a NOTFOUND status or a status all of whose completeness
+   values are finite.  Bounds: 1 <= intervals <= 2^24, at most 2^24 partitions per group. *)
+Theorem evaluator_backend_typed :
+  forall cf cls h st reps,
+    (1 <= Storage.cf_intervals cf)%nat -> Z.of_nat (Storage.cf_intervals cf) <= 2 ^ 24 ->
+    StorageProofs.wf_hist h ->
+    Storage.run cf (Storage.init_state cls) h = Some (st, reps) ->
+    groups_bounded st ->
+    forall now minimum allowed enow c g a,
+      eval_ok (evaluator_model cf now st minimum allowed enow c g a) = true.
+Proof.
+  intros cf cls h st reps HN HN2 Hwf Hrun Hb now minimum allowed enow c g a.
+  unfold evaluator_model.
+  pose proof (fetch_consumer_no_crash cf now st c g) as Hnc.
+  destruct (Storage.fetch_consumer cf now st c g) as [st' rep|] eqn:Ef; [|contradiction].
+  destruct rep as [| |l0|l0|l]; try reflexivity.
+  pose proof (reply_parts_shaped cf cls h st reps now c g st' l HN Hwf Hrun Ef) as Hsh.
+  pose proof (fetch_consumer_reply_size cf now st c g st' l Hb Ef) as Hsz.
+  assert (Hshape : Forall (fun cp => exists b cs, Eval.cp_offsets cp = repeat None b ++ map Some cs) (EvalCompleteProofs.all_parts l)).
+  { eapply Forall_impl; [|exact Hsh]. intros cp [H _]. exact H. }
+  assert (Hbounded : JsonProofs.bounded l).
+  { split; [exact Hsz|]. eapply Forall_impl; [|exact Hsh]. intros cp [_ H]. cbv beta. lia. }
+  destruct (eval_group_no_crash l minimum allowed enow Hshape) as [gs Hg]. rewrite Hg.
+  destruct (JsonProofs.group_finite l minimum allowed enow gs Hbounded Hg) as [Hc [Hp Hm]].
+  assert (Hall : forallb (fun p => f32_fin (Eval.ps_complete p)) (Eval.gs_partitions gs) = true).
+  { apply forallb_forall. intros p Hin. rewrite Forall_forall in Hp. exact (Hp p Hin). }
+  assert (Hmx : match Eval.gs_maxlag gs with Some m => f32_fin (Eval.ps_complete m) | None => true end = true).
+  { destruct (Eval.gs_maxlag gs) as [m|] eqn:Em; [exact (Hm m eq_refl)|reflexivity]. }
+  cbv zeta. unfold eval_ok. cbn [gs_finite]. unfold status_encodable.
+  destruct a.
+  - change (f32_fin (Eval.gs_complete gs)) with (TmplProofs.f32_finite (Eval.gs_complete gs)). rewrite Hc, Hall, Hmx. reflexivity.
+  - unfold Eval.filter_view. cbn [Eval.gs_complete Eval.gs_partitions Eval.gs_maxlag].
+    change (f32_fin (Eval.gs_complete gs)) with (TmplProofs.f32_finite (Eval.gs_complete gs)).
+    rewrite Hc, (forallb_filter_sub _ _ _ Hall), Hmx. reflexivity.
+Qed.
+
+Section Composed.
+  Variable intern : bytes -> Z.
+  Variable name_of : Z -> bytes.
+
+  (* the backend the HTTP layer really talks to: the storage model answering the storage requests, the evaluator model
+     (over the same storage) answering the evaluator requests *)
+  Definition composed_backend (cf : Storage.config) (now : Z) (st : Storage.state) (minimum : F32.f32) (allowed enow : Z)
+             (ready : bool) : backend :=
+    storage_backend intern name_of cf now st
+                    (fun c g a => evaluator_model cf now st minimum allowed enow (intern c) (intern g) a) ready.
+
+  (* [backend_typed] with NO assumption beyond the natural bounds: for every storage state reached by a run of a
+     well-formed history, 1 <= intervals <= 2^24, at most 2^24 partitions per group *)
+  Theorem backend_typed_reachable :
+    forall cf cls h st reps,
+      (1 <= Storage.cf_intervals cf)%nat -> Z.of_nat (Storage.cf_intervals cf) <= 2 ^ 24 ->
+      StorageProofs.wf_hist h ->
+      Storage.run cf (Storage.init_state cls) h = Some (st, reps) ->
+      groups_bounded st ->
+      forall now minimum allowed enow ready,
+        backend_typed (composed_backend cf now st minimum allowed enow ready).
+  Proof.
+    intros cf cls h st reps HN HN2 Hwf Hrun Hb now minimum allowed enow ready.
+    unfold composed_backend. apply storage_backend_typed_any_state.
+    intros c g a. eapply evaluator_backend_typed; eauto.
+  Qed.
+
+  Theorem handle_total_reachable :
+    forall cf cls h st reps,
+      (1 <= Storage.cf_intervals cf)%nat -> Z.of_nat (Storage.cf_intervals cf) <= 2 ^ 24 ->
+      StorageProofs.wf_hist h ->
+      Storage.run cf (Storage.init_state cls) h = Some (st, reps) ->
+      groups_bounded st ->
+      forall now minimum allowed enow ready (r : route) (ps : params) (reqbody : Z) (cfg : tree),
+        snd (handle r ps reqbody (composed_backend cf now st minimum allowed enow ready) cfg) <> Crash.
+  Proof.
+    intros cf cls h st reps HN HN2 Hwf Hrun Hb now minimum allowed enow ready r ps reqbody cfg.
+    apply handle_total. eapply backend_typed_reachable; eauto.
+  Qed.
+
+  Theorem serve_total_reachable :
+    forall tbl opts, route_table_ok tbl opts = true ->
+    forall cf cls h st reps,
+      (1 <= Storage.cf_intervals cf)%nat -> Z.of_nat (Storage.cf_intervals cf) <= 2 ^ 24 ->
+      StorageProofs.wf_hist h ->
+      Storage.run cf (Storage.init_state cls) h = Some (st, reps) ->
+      groups_bounded st ->
+      forall now minimum allowed enow ready (method path : bytes) (reqbody : Z) (cfg : tree),
+        snd (serve (compile_table tbl) method path reqbody (composed_backend cf now st minimum allowed enow ready) cfg) <> Crash.
+  Proof.
+    intros tbl opts Htbl cf cls h st reps HN HN2 Hwf Hrun Hb now minimum allowed enow ready method path reqbody cfg.
+    eapply serve_total; [exact Htbl|]. eapply backend_typed_reachable; eauto.
+  Qed.
+End Composed.
+
+(* a decidable form of [groups_bounded], for concrete states *)
+Definition groups_bounded_b (st : Storage.state) : bool :=
+  forallb (fun ccl => forallb (fun ggrp => Z.of_nat (group_size (snd ggrp)) <=? 2 ^ 24) (Storage.cl_consumer (snd ccl))) st.
+
+Lemma amap_get_in : forall {V} (m : AMap.amap V) k v, AMap.get m k = Some v -> In (k, v) m.
+Proof.
+  intros V m k v. induction m as [|[k' v'] m IH]; cbn [AMap.get]; [discriminate|].
+  destruct (k' =? k) eqn:E; intro H.
+  - apply Z.eqb_eq in E. inversion H; subst. left; reflexivity.
+  - right. apply IH. exact H.
+Qed.
+
+Lemma groups_bounded_b_sound : forall st, groups_bounded_b st = true -> groups_bounded st.
+Proof.
+  intros st H c cl g grp Hc Hg. unfold groups_bounded_b in H.
+  pose proof (forallb_In _ _ _ H (amap_get_in _ _ _ Hc)) as H1. cbn [snd] in H1.
+  pose proof (forallb_In _ _ _ H1 (amap_get_in _ _ _ Hg)) as H2. cbn [snd] in H2.
+  apply Z.leb_le in H2. exact H2.
+Qed.
+
+(* non-vacuity: a history (two broker offsets, three commits of group 7 on partition 0 of topic 5 of cluster 1 with a
+   window of two slots) whose run reaches a state with a live group; the evaluator model answers a real status for it *)
+Definition reach_cf : Storage.config := Storage.mkConfig 2%nat 604800 0 (fun _ => true).
+Definition reach_hist : list (Z * Storage.req) :=
+  [(1000, Storage.SetBrokerOffset 1 5 0 1 50); (1001, Storage.SetBrokerOffset 1 5 0 1 80);
+   (1002, Storage.SetConsumerOffset 1 7 5 0 10 1 1002000); (1003, Storage.SetConsumerOffset 1 7 5 0 20 2 1003000);
+   (1004, Storage.SetConsumerOffset 1 7 5 0 30 3 1004000)].
+Definition reach_state : Storage.state :=
+  match Storage.run reach_cf (Storage.init_state [1]) reach_hist with Some (st, _) => st | None => [] end.
+
+Example reachable_state_example :
+  (exists reps, Storage.run reach_cf (Storage.init_state [1]) reach_hist = Some (reach_state, reps)) /\
+  StorageProofs.wf_hist reach_hist /\ groups_bounded reach_state /\
+  (exists l, Storage.fetch_consumer reach_cf 1005 reach_state 1 7 = Storage.Done reach_state (Storage.RConsumer l) /\ l <> []) /\
+  evaluator_model reach_cf 1005 reach_state F32.f32_zero 0 1005 1 7 true = Some (mk_gstatus 1 true) /\
+  evaluator_model reach_cf 1005 reach_state F32.f32_zero 0 1005 1 8 true = Some (mk_gstatus 0 true).
+Proof.
+  split; [|split; [|split; [|split; [|split]]]].
+  - eexists. vm_compute. reflexivity.
+  - repeat constructor; cbn; unfold Int64.in_i64; lia.
+  - apply groups_bounded_b_sound. vm_compute. reflexivity.
+  - eexists. split; [vm_compute; reflexivity|discriminate].
+  - vm_compute. reflexivity.
+  - vm_compute. reflexivity.
+Qed.
 
 (* ------------------------------------------------------------------------------------------------ *)
 (* 8. the regenerated tables                                                                         *)
